@@ -208,7 +208,7 @@ fn local_engine(rep: &Report, seed: u64, tier: Tier) {
         }
     }
     // (b) random range lists, random fragmentation + Pending, incl. ranges past EOF.
-    let cases = tier.pick(20_000, 300_000);
+    let cases = tier.pick(150_000, 2_000_000);
     let out = par_map(cases / 500, crate::util::ncpu(), |b| {
         let mut v = Vec::new();
         let mut n = 0u64;
@@ -532,7 +532,7 @@ fn http_engine(rep: &Report, seed: u64, tier: Tier) {
     }
     // E4: random range lists with random plans
     let mut rng = Rng::new(seed).fork(0x0808);
-    for _ in 0..tier.pick(700, 12_000) {
+    for _ in 0..tier.pick(6000, 60_000) {
         let flen = rng.urange(100, 2000);
         let shape = match rng.below(5) {
             0 => RangeShape::Adjacent,
